@@ -326,7 +326,7 @@ def provenance(ctx: Ctx):
             f"{MM}::SecondOrderMeasures.{name}",
             "{" + ",".join(sorted(labels)) + "}",
             "{" + lab + "}",
-            labels == {lab},
+            (labels == {lab}) if labels else None,
             "every data read reachable from this base/margin (through all collaborators and construction sites) must carry this weighting",
         )
         ctx.count("provenance obligations")
@@ -334,7 +334,7 @@ def provenance(ctx: Ctx):
     for name, lab in {"unweighted_bases": "U", "unweighted_counts": "U", "weighted_bases": "W", "weighted_counts": "W", "pruning_base": "U"}.items():
         reads = measure_blocks_reads(ctx, sm, name)
         labels = data_labels(reads)
-        ctx.ob("provenance", f"stripe/measure.py::StripeMeasures.{name}", "{" + ",".join(sorted(labels)) + "}", "{" + lab + "}", labels == {lab})
+        ctx.ob("provenance", f"stripe/measure.py::StripeMeasures.{name}", "{" + ",".join(sorted(labels)) + "}", "{" + lab + "}", (labels == {lab}) if labels else None)
         ctx.count("provenance obligations")
     ctx.require_min("provenance obligations", 27)
 
